@@ -3,28 +3,34 @@
    context under every subset of the options relevant to it; TLC checks MOut \in Allowed and properties of S. *)
 EXTENDS SuiteS
 
-CONSTANT MaxLen
+CONSTANTS MaxLen,
+          CoreOnly      \* TRUE: one representative symbol per rewrite family and six contexts (keeps blocks of length 3 tractable)
+CoreSymbols == {<<"pass">>, <<"litstr">>, <<"litnum">>, <<"imp", "a">>, <<"imp", "b">>, <<"from", "os", "x">>, <<"from", "os", "y">>, <<"assert">>, <<"dbg">>,
+                <<"dbg_else">>, <<"annval">>, <<"annnoval">>, <<"raise0">>, <<"raisefrom">>, <<"classobj">>, <<"retnone">>, <<"retbare">>, <<"other">>,
+                <<"dbg_bind">>, <<"use_zq">>}
+CoreContexts == {"module_top", "function", "class", "dataclass", "if", "except"}
+SymbolsUsed == IF CoreOnly THEN CoreSymbols ELSE Symbols
 
 RECURSIVE Blocks(_)
-Blocks(n) == IF n = 0 THEN {<<>>} ELSE LET B == Blocks(n - 1) IN B \cup {Append(b, st) : b \in {x \in B : Len(x) = n - 1}, st \in Symbols}
+Blocks(n) == IF n = 0 THEN {<<>>} ELSE LET B == Blocks(n - 1) IN B \cup {Append(b, st) : b \in {x \in B : Len(x) = n - 1}, st \in SymbolsUsed}
 
 RelevantTo(st) ==
     CASE st = <<"pass">> -> {"remove_pass"}
       [] st \in Literals -> {"remove_literal_statements"}
       [] st[1] \in {"imp", "from"} -> {"combine_imports"}
-      [] st \in {<<"annval">>, <<"annnoval">>} -> {"ann_variable", "ann_class"}
+      [] st \in {<<"annval">>, <<"annnoval">>, <<"ann_zq">>} -> {"ann_variable", "ann_class"}
       [] st = <<"classobj">> -> {"remove_object_base"}
       [] st \in Returns -> {"remove_explicit_return_none"}
       [] st \in {<<"raise0">>, <<"raiseargs">>, <<"raisefrom">>, <<"raiseuser">>} -> {"remove_builtin_exception_brackets"}
       [] st \in {<<"assert">>, <<"assert_bind">>} -> {"remove_asserts"}
-      [] st \in {<<"dbg_bind">>, <<"dbg_global">>} -> {"remove_debug"}
+      [] st \in {<<"dbg_bind">>, <<"dbg_global">>, <<"dbg_yield">>} -> {"remove_debug"}
       [] st \in DebugTruthy \cup DebugOther \cup {<<"dbg_else">>, <<"dbg_elif">>} -> {"remove_debug"}
       [] OTHER -> {}
 Relevant(blk) == UNION { RelevantTo(blk[k]) : k \in DOMAIN blk }
 
 VARIABLES ctx, env, blk, opts
 vars == <<ctx, env, blk, opts>>
-Init == /\ ctx \in Contexts
+Init == /\ ctx \in (IF CoreOnly THEN CoreContexts ELSE Contexts)
         /\ blk \in Blocks(MaxLen) /\ blk # <<>> /\ WellFormed(ctx, blk)
         /\ env \in Env
         /\ (env.usesDoc => (ctx = "module_top" /\ \E k \in DOMAIN blk : blk[k] \in Literals))
